@@ -141,6 +141,10 @@ def units(tier, seed):
         for box in ("B_sym", "B_dec", "B_3d"):
             descs.append(dict(engines=list(eng), gens=3, box=box, obj=("sphere_in", "lin_corner")[k % 2], maximize=bool(k % 2), Mh=8, seed=s + k, sprout={"kind": "simple", "L": 1},
                               mstd_factor=0.1, seaa_step_factor=2.0, lsc=[None] * len(eng)))
+    # beyond the small scope (hmsmc/scale.py): run once each
+    from ..scale import big_population_worlds, high_dimension_worlds, long_local_search_worlds
+
+    descs += big_population_worlds(tier, seed) + high_dimension_worlds(tier, seed) + long_local_search_worlds(tier, seed)[:1]
     us = [{"kind": "run", "descs": c} for c in chunks(descs, 40)]
     # a second optimisation in the same process on a SMALLER box inside the first one (zooming in), each pair in a brand-new
     # interpreter: with fresh objects throughout, and with the level-config objects kept and pointed at the new problem
